@@ -841,6 +841,23 @@ def gen(rng, tier):
                           'span': sp, 'miss': miss,
                           'data': {'Y': [lib.fhex(1.0)] * 4, 'X': [lib.fhex(1.0)] * 4, 'a': [lib.fhex(0.5)] * 4},
                           'opts': dict(min_iter=0, max_iter=10, tol=lib.fhex(TOL), offset=0, failures='raise', errors='raise', catch_first_error=True)})
+    # an instance that has been solved before its `check` list is changed (two variables converging at very different speeds:
+    # A in ~40 passes, B in several hundred), directly and through copy()
+    A0, A1, B0, Xv_ = ['v', 'A', 0], ['v', 'A', -1], ['v', 'B', 0], ['v', 'X', 0]
+    pw = {'eqs': [['A', ['b', '+', ['b', '+', ['b', '*', ['d', '0.5'], A0], ['b', '*', ['d', '0.25'], A1]], Xv_]],
+                  ['B', ['b', '+', ['b', '*', ['d', '0.9375'], B0], A0]]], 'family': 'lit', 'style': ' '}
+    for chk0, chk1 in ((None, ['A']), (None, ['B']), (['A'], ['B', 'A']), (['B'], ['A'])):
+        for cp in (False, True):
+            for entry in ('solve', 'solve_t'):
+                c = {'kind': 'run', 'keep': True, 'prog': pw, 'script': script_of(pw), 'n': 5, 'entry': entry, 'check': chk1,
+                     'warm': {'entry': 'solve' if cp else entry, 'check0': chk0, 'copy': cp, 'max_iter': 1000},
+                     'data': {'A': [lib.fhex(1.0)] * 5, 'B': [lib.fhex(1.0)] * 5, 'X': [lib.fhex(1.0)] * 5},
+                     'opts': dict(min_iter=0, max_iter=1000, tol=lib.fhex(TOL), offset=0, failures='raise', errors='raise', catch_first_error=True)}
+                if entry == 'solve':
+                    c['start'], c['end'] = None, None
+                else:
+                    c['t'] = -2
+                cases.append(c)
     # two models in one process with the same non-default check list at different rows
     pA, pB = fixed[0], fixed[2]          # Y = {a} * Y[-1] + X  (Y is row 0)   /   Y = C + G ; C = {c1} * Y  (order of NAMES decides)
     for main, other in ((pA, pB), (pB, pA)):
@@ -906,6 +923,18 @@ def with_histories(rng, cases):
         q = rng.random()
         if 0.2 <= q < 0.25:
             c['edit'] = {rng.choice(['lags', 'leads']): rng.choice([1, 1, 2])}
+        if 0.25 <= q < 0.37:
+            # solved once, then `check` CHANGED to another non-empty list (also through copy()), then the measured solve / solve_t
+            roles_ = names_in(c['prog'])
+            endo_ = [nm for nm, r_ in roles_.items() if r_ == 'endo']
+            pool_ = endo_ + [nm for nm, r_ in sorted(roles_.items()) if r_ == 'exo'][:1]
+            first = None if rng.random() < 0.6 else rng.sample(pool_, rng.randint(1, len(pool_)))
+            for _t in range(20):
+                new = rng.sample(pool_, rng.randint(1, len(pool_)))
+                if sorted(new) != sorted(first if first is not None else endo_):
+                    break
+            c['check'] = new
+            c['warm'] = {'entry': rng.choice(['solve', 'solve_t']), 'check0': first, 'copy': rng.random() < 0.35, 'max_iter': rng.choice([1, 3, 50])}
         if q >= 0.2:
             continue
         roles = names_in(c['prog'])
@@ -1040,6 +1069,28 @@ def _instantiate(cls, case):
     m.__dict__['_snaps'] = []
     for attr, extra in (case.get('edit') or {}).items():
         setattr(m, attr, getattr(m, attr) + extra)         # instance-level lags / leads RAISED by the user (lowering them is outside C07: see ASSUMPTIONS)
+    w = case.get('warm')
+    if w:
+        # HISTORY ON THE SAME OBJECT: the instance has already been solved — with the default check list or another one — (and possibly
+        # copied) before its `check` attribute is set to the list of this case.  Values, statuses and iteration counts are then put back
+        # to the case's data, so that the measured call starts from the state the model is given: whatever else the object kept from the
+        # first solve (e.g. positions of the old check variables) must not matter.  The same sequence runs on both engines.
+        if w.get('check0') is not None:
+            m.check = list(w['check0'])
+        try:
+            if w['entry'] == 'solve':
+                m.solve(max_iter=w.get('max_iter', 3), failures='ignore', errors='ignore')
+            else:
+                m.solve_t(int(m.lags), max_iter=w.get('max_iter', 3), failures='ignore', errors='ignore')
+        except Exception:
+            pass
+        if w.get('copy'):
+            m = m.copy()
+        for nm, row in case['data'].items():
+            m.__dict__['_' + nm][:] = [lib.unhex(x) for x in row]
+        m.__dict__['_status'][:] = '-'
+        m.__dict__['_iterations'][:] = -1
+        m.__dict__['_snaps'] = []
     if case.get('check') is not None:
         m.check = list(case['check'])          # a non-default list of convergence variables (any variable names, any order)
     return m, span
@@ -1394,7 +1445,9 @@ def minmax_unspecified(case, obs):
     (observed both ways), so the Fortran model is not compared on runs that can have met one."""
     if not has_node(case['prog']['eqs'], lambda n: n[0] == 'm'):
         return False
-    if obs.get('mm_unspec'):
+    if obs.get('mm_unspec') or obs.get('interm_nonfinite') or obs['py']['out'][:2] == ['raise', 'SolutionError']:
+        # (the Python run stopped at / passed through a non-finite intermediate: the Fortran run computes on with inf / NaN and may
+        #  hand one to MAX / MIN although the recorded Python passes never did — `Nt = min(T, -x1 / (Nt / x1))` with x1 = 0)
         return True
     return any(not _fin(x) for o in (obs['py'], obs['f']) if o is not None for r in o['vals'] for x in r)
 
@@ -1949,7 +2002,7 @@ def shrink_candidates(case):
             c = copy.deepcopy(case)
             c['opts'][k] = v
             yield c
-    for k in ('prelude', 'check', 'edit', 'span'):
+    for k in ('prelude', 'warm', 'check', 'edit', 'span'):
         if k in case:
             c = copy.deepcopy(case)
             del c[k]
